@@ -375,6 +375,8 @@ fn format(opt: opt::Opt) -> Result<i32> {
                                 Some(stylua_lib::Error::ParseError(err)) => {
                                     let structured_err =
                                         convert_parse_error_to_json(file, err.to_vec());
+                                    // This error does not go through the logger, so set the exit code here
+                                    EXIT_CODE.store(2, Ordering::SeqCst);
                                     // Force write to stderr directly
                                     // TODO: can we do this through error! instead?
                                     let stderr = stderr();
